@@ -47,6 +47,13 @@ pub enum Step {
         #[serde(default)]
         arg: u64,
     },
+    /// Edits to the alternative source tree (two racing backups of different sources).
+    EditAlt(Vec<EditOp>),
+    /// Concurrent invocations under a schedule.
+    Race {
+        actors: Vec<crate::world::ActorSpec>,
+        schedule: crate::sim::Schedule,
+    },
 }
 
 #[derive(Clone, Debug, PartialEq, Serialize, Deserialize)]
@@ -105,6 +112,23 @@ impl Scenario {
                     if plan.is_faultless() { String::new() } else { format!(",faults={:?}", plan.at) }
                 ),
                 Step::Damage { path, kind, .. } => format!("damage({path},{kind:?})"),
+                Step::EditAlt(es) => format!("edit-alt[{} edits]", es.len()),
+                Step::Race { actors, schedule } => format!(
+                    "race({}; {})",
+                    actors
+                        .iter()
+                        .map(|a| match a {
+                            crate::world::ActorSpec::Backup { alt_src, .. } => format!("backup{}", if *alt_src { "(alt)" } else { "" }),
+                            crate::world::ActorSpec::Delete { bands, .. } => format!("delete{bands:?}"),
+                        })
+                        .collect::<Vec<_>>()
+                        .join(" || "),
+                    match schedule {
+                        crate::sim::Schedule::Explicit(v) => format!("explicit {} decisions", v.len()),
+                        crate::sim::Schedule::Random(s) => format!("random {s}"),
+                        crate::sim::Schedule::Preempt { first, points } => format!("preempt first={first} points={points:?}"),
+                    }
+                ),
             })
             .collect();
         serde_json::json!({"check": self.check, "seed": self.seed, "env": self.env, "steps": steps, "params": self.params})
@@ -132,6 +156,7 @@ pub enum StepResult {
     Backup(BackupRun),
     Delete(DeleteRun),
     Damaged(bool),
+    Race(crate::world::RaceRun),
 }
 
 pub fn apply_damage(w: &World, path: &str, kind: &DamageKind, arg: u64) -> bool {
@@ -188,6 +213,17 @@ pub fn exec_step(w: &mut World, step: &Step, acc: &mut Acc, want_changes: bool) 
             Ok(StepResult::Delete(r))
         }
         Step::Damage { path, kind, arg } => Ok(StepResult::Damaged(apply_damage(w, path, kind, *arg))),
+        Step::EditAlt(es) => {
+            let rm = w.tree.nodes.get("/").unwrap().meta;
+            w.apply_alt_edits(rm, es).map_err(|e| format!("apply_alt_edits: {e}"))?;
+            Ok(StepResult::Edited(es.len()))
+        }
+        Step::Race { actors, schedule } => {
+            let r = w.race(actors, schedule);
+            acc.calls += r.actors.len() as u64;
+            acc.ops += r.actors.iter().map(|a| a.ops as u64).sum::<u64>();
+            Ok(StepResult::Race(r))
+        }
     }
 }
 
@@ -295,6 +331,10 @@ pub fn restore_violations(prop: &str, r: &RestoreRun, expected: &Snap, owner: bo
     // one violation per distinct discriminator, to keep reports short
     let mut seen: BTreeMap<String, ()> = BTreeMap::new();
     for m in &mm {
+        // a file whose restore was reported as failed has no meaningful metadata
+        if !r.errors.is_empty() && matches!(m.field, "mtime" | "mode" | "uid" | "gid") {
+            continue;
+        }
         let disc = mismatch_disc(m, expected.get(&m.path).or(r.snap.get(&m.path)));
         if seen.insert(disc.clone(), ()).is_none() {
             out.push(Violation::new(
@@ -382,11 +422,16 @@ pub fn gen_history(r: &mut Rng, check: &str, seed: u64, hc: &HistoryCfg) -> Scen
                 sel.clear(); // pure gc
             }
             let dry_run = r.chance(1, 6);
+            let plan = if hc.interrupts && r.chance(1, 7) {
+                FaultPlan::single(r.below(40) as u32, Fault::CrashBefore)
+            } else {
+                FaultPlan::none()
+            };
             steps.push(Step::Delete {
                 bands: sel.clone(),
                 dry_run,
                 break_lock: r.chance(1, 4),
-                plan: FaultPlan::none(),
+                plan,
             });
             if !dry_run && !last_incomplete {
                 bands.retain(|b| !sel.contains(b));
